@@ -112,14 +112,23 @@ Proof. exact text_roundtrip. Qed.
    [astep] is the abstract step: an octet is appended iff the label stays <= 63 and the wire form <= 255,
    a label is closed iff it is non-empty and there is room for the next length octet.  Every operation either
    succeeds with the builder representing the stepped state (limits [ast_ok] preserved) or returns an error
-   (the caller's builder value is untouched); it never panics.  try_push_slice and finish_with_suffix are
-   modelled and differentially tested but have no theorem: hence _partial. *)
+   (the caller's builder value is untouched); it never panics.  finish_with_suffix is modelled and
+   differentially tested but has no theorem: hence _partial. *)
 Theorem c16_builder_partial : forall b st t, brepr b st -> ast_ok st ->
   match astep st t with
   | Some st' => exists b', feed1 b t = Ok b' /\ brepr b' st' /\ ast_ok st'
   | None => exists e, feed1 b t = Err e
   end.
 Proof. exact feed1_step. Qed.
+
+(* try_push_slice: LabelTooLong iff the label would exceed 63, else NameTooLong iff the wire form would exceed
+   255, else the whole slice is appended to the current label. *)
+Theorem c16_builder_push_slice : forall b st (o : list N), brepr b st -> ast_ok st ->
+  (63 < length (snd st) + length o -> try_push_slice b o = Err LabelTooLong) /\
+  (length (snd st) + length o <= 63 -> 255 < awire st + length o -> try_push_slice b o = Err NameTooLong) /\
+  (length (snd st) + length o <= 63 -> awire st + length o <= 255 ->
+   exists b', try_push_slice b o = Ok b' /\ brepr b' (fst st, snd st ++ o) /\ ast_ok (fst st, snd st ++ o)).
+Proof. exact try_push_slice_spec. Qed.
 
 Theorem c16_builder_finish : forall b st, brepr b st -> ast_ok st ->
   finish b = (if is_nil (snd st) then Ok (name_of (fst st)) else Err NonNullTerminal) /\
@@ -160,3 +169,4 @@ Print Assumptions c16_superdomain.
 Print Assumptions c16_lowercase.
 Print Assumptions c16_lowercase_idempotent.
 Print Assumptions c16_is_wildcard.
+Print Assumptions c16_builder_push_slice.
